@@ -129,6 +129,63 @@ fn one_case(ctx: &mut Ctx, idx: u64, r: &mut Rng) {
 						));
 					}
 				}
+				// an effect made dry (or a volume control set to 0 dB) through its HANDLE is the identity as well - also while a
+				// further command is pending: an instant move whose start is delayed by several buffers, written one callback after
+				// the move to dry. Until that delay has run out the parameter rests at dry / 0 dB.
+				if idx % 2 == 1 {
+					use kira::effect::filter::FilterBuilder;
+					use kira::effect::volume_control::VolumeControlBuilder;
+					use kira::effect::EffectBuilder;
+					use kira::{Decibels, Mix, StartTime, Tween};
+					use std::time::Duration;
+					let chunk_s = ibs as f64 / sr as f64;
+					let now = Tween { duration: Duration::ZERO, ..Default::default() };
+					let w = r.usize_in(4, 9);
+					let later = Tween { start_time: StartTime::Delayed(Duration::from_secs_f64(chunk_s * (w as f64 + 0.5))), duration: Duration::ZERO, ..Default::default() };
+					let is_filter = r.chance(0.5);
+					let mut fh = None;
+					let mut vh = None;
+					let mut fx: Box<dyn kira::effect::Effect> = if is_filter {
+						let (fx, h) = FilterBuilder::new().cutoff(r.f64_in(200.0, 3000.0)).mix(Mix(r.f32_in(0.2, 1.0))).build();
+						fh = Some(h);
+						fx
+					} else {
+						let (fx, h) = VolumeControlBuilder::new(Decibels(r.f32_in(-20.0, -3.0))).build();
+						vh = Some(h);
+						fx
+					};
+					fx.init(sr, ibs);
+					let info = crate::probes::mock_info();
+					let x = gen_signal(r, sig, ibs * (w + 4), sr, 1.0);
+					let mut y = x.clone();
+					for (k, c) in y.chunks_mut(ibs).enumerate() {
+						if k == 1 {
+							if let Some(h) = fh.as_mut() {
+								h.set_mix(Mix(0.0), now);
+							}
+							if let Some(h) = vh.as_mut() {
+								h.set_volume(Decibels::IDENTITY, now);
+							}
+						}
+						if k == 2 {
+							if let Some(h) = fh.as_mut() {
+								h.set_mix(Mix(r.f32_in(0.3, 1.0)), later);
+							}
+							if let Some(h) = vh.as_mut() {
+								h.set_volume(Decibels(r.f32_in(-30.0, -6.0)), later);
+							}
+						}
+						fx.on_start_processing();
+						fx.process(c, 1.0 / sr as f64, &info);
+					}
+					// buffers 2 .. w: dry / 0 dB is in force (set in buffer 1, reached by its end) and the next move is w.5 buffers away
+					if let Some(i) = (2 * ibs..(w + 1) * ibs).find(|i| x[*i] != y[*i]) {
+						return Some((
+							format!("{} set {} through its handle (instant), then a further instant move written one callback later with its start delayed by {}.5 buffers: while that is pending, frame {} of buffer {} differs: in ({:e},{:e}) out ({:e},{:e})", if is_filter { "filter" } else { "volume control" }, if is_filter { "fully dry" } else { "to 0 dB" }, w, i % ibs, i / ibs, x[i].left, x[i].right, y[i].left, y[i].right),
+							detail("dry identity through the handle"),
+						));
+					}
+				}
 				// hard clip at 0 dB drive below full scale is transparent
 				if idx % 3 == 0 {
 					let hc = FxSpec::Distortion { kind: DistortionKind::HardClip, drive_db: 0.0, mix: 1.0 };
